@@ -155,7 +155,7 @@ TEXT = {
     },
     "C14": {
         "text": "The serving loops as functions of ANY sequence of read results; theorems: invocations = in order, exactly one per datagram before the first read error that decodes (with its "
-                "decoding and the rewritten peer), none for undecodable ones; the loop ends exactly at the first read error; a malformed datagram never stops it. Both real servers run behind a "
+                "decoding and the rewritten peer), none for undecodable ones, and as a count (C14_exactly_once_v4/v6); the loop ends exactly at the first read error; a malformed datagram never stops it. Both real servers run behind a "
                 "scripted connection under synctest with handlers that outlive later reads.",
         "note": COMMON_NOTE + "Handler parallelism and data races are outside the model.",
         "technique": "Coq proof (loop = filter-map over the read sequence, for all sequences) + synctest differential harness of both servers",
